@@ -481,7 +481,7 @@ func RunCompletion(spec *ProgSpec, compLine string, zsh bool, args []string) (ou
 				out.DynCalls = b.DynCalls
 			}
 			s := strings.TrimSuffix(out.Out, "\n")
-			if s != "" || out.Out != "" {
+			if s != "" {
 				out.Lines = strings.Split(s, "\n")
 			}
 			if r := recover(); r != nil {
